@@ -212,14 +212,91 @@ theorem relay_identity_pg_parse (name query : Bytes) (oids : List Nat) (hn : NoZ
   ⟨marshal_newParsePacket name query oids hn hq hl ho, decodeParse_encodeParse name query oids hn hq hl ho⟩
 
 open AcraModel.Wire.Pg in
-/-- **Rewritten Parse stays well-formed.** `ReplaceQuery` on a Parse message yields exactly the
-well-framed Parse message with the new query text, the same statement name and the same parameter types. -/
-theorem rewrite_wellformed_pg_parse (name query q lb : Bytes) (oids : List Nat) (hn : NoZero name)
-    (hq : NoZero query) (hl : oids.length < 2^16) (ho : ∀ o ∈ oids, o < 2^32) (hq' : NoZero q)
-    (hsz : (encodeParse name q oids).length + 4 < 2^32) :
-    ∃ p, replaceParseQuery ⟨80, lb, encodeParse name query oids⟩ q = .ok p ∧
-      marshal p = encodeMsg 80 (encodeParse name q oids) :=
-  replaceParseQuery_marshal name query q lb oids hn hq hl ho hq' hsz
+/-- Facts from the regenerated sources the Parse/Bind models rely on: every big-endian integer read of
+`decryptor/postgresql/utils.go` with the Go conversions applied to it. The counts of the extended protocol (number of
+parameter type OIDs of Parse – `paramsNum.ToInt` –, number of format codes, parameters and result formats of Bind) and
+the parameter lengths are converted with `int(…)` only: they are read as UNSIGNED 16-bit (32-bit) values, never through
+`int16`/`int32`. The OID loop of `NewParsePacket` runs `numParams.ToInt()` times and takes 4 bytes each time. -/
+theorem fact_pg_int_reads :
+    Generated.Wire.pgIntReads = [("paramsNum.ToInt", 16, ["int"]), ("NewExecutePacket", 32, []),
+      ("readUint16Array", 16, ["int"]), ("readUint16Array", 16, []),
+      ("readParameterArray", 16, ["int"]), ("readParameterArray", 32, ["int"])] ∧
+    Generated.Wire.pgParamsNumToInt = ["int"] ∧ Generated.Wire.pgU16ArrayCountConv = ["int"] ∧
+    Generated.Wire.pgParamArrayCountConv = ["int"] ∧ Generated.Wire.pgParamArrayLenConv = ["int"] ∧
+    Generated.Wire.pgParseLoopBound = "numParams.ToInt()" ∧ Generated.Wire.pgParseOidWidth = 4 := by decide
+
+open AcraModel.Wire.Pg in
+/-- **The count of a Parse message is an unsigned 16-bit integer**: for every two bytes `b`, the number of parameter
+type OIDs `NewParsePacket` collects is the big-endian value of `b` (0 … 65535) – in particular 32768 … 65535 are counts,
+not negative numbers. -/
+theorem pg_parse_count_unsigned (b : Bytes) (h : b.length = 2) : paramsCount b = beVal b ∧ beVal b < 2^16 := by
+  have := beVal_lt b
+  rw [h] at this
+  exact ⟨paramsCount_eq b (by omega), by omega⟩
+
+open AcraModel.Wire.Pg in
+/-- **pg_parse_roundtrip.** `Marshal ∘ NewParsePacket = id` on every well-formed Parse body – statement name and query
+without zero bytes, ANY number 0 … 65535 of parameter type OIDs: the packet holds name and query with their terminators,
+the two count bytes as received, exactly as many 4-byte OIDs as the count declares, `Marshal` gives back the body byte for
+byte and `Length` its length; and the specification decoder recovers name, query and OIDs. -/
+theorem pg_parse_roundtrip (name query : Bytes) (oids : List Nat) (hn : NoZero name)
+    (hq : NoZero query) (hl : oids.length ≤ 65535) (ho : ∀ o ∈ oids, o < 2^32) :
+    (∃ p, newParsePacket (encodeParse name query oids) = .ok p ∧
+      p.name = name ++ [0] ∧ p.query = query ++ [0] ∧ p.paramsNum = beBytes 2 oids.length ∧
+      p.params = oids.map (beBytes 4) ∧ p.params.length = oids.length ∧ paramsCount p.paramsNum = oids.length ∧
+      p.marshal = encodeParse name query oids ∧ p.length = (encodeParse name query oids).length) ∧
+    decodeParse (encodeParse name query oids) = some (name, query, oids) := by
+  have hl' : oids.length < 2^16 := by omega
+  obtain ⟨p, h1, h2, h3⟩ := marshal_newParsePacket name query oids hn hq hl' ho
+  have h0 := newParsePacket_encodeParse name query oids hn hq hl' ho
+  rw [h0] at h1
+  cases h1
+  refine ⟨⟨_, h0, rfl, rfl, rfl, rfl, by simp, ?_, h2, h3⟩, decodeParse_encodeParse name query oids hn hq hl' ho⟩
+  rw [paramsCount_eq _ (by rw [beVal_beBytes2 _ hl']; omega), beVal_beBytes2 _ hl']
+
+open AcraModel.Wire.Pg in
+/-- **Rewritten Parse stays well-formed.** Whatever the proxy does to a well-formed Parse message with 0 … 65535
+parameter types – the query observers replace the query text (`q = some text`), `replaceOIDsInParsePackets` re-types the
+parameters selected by `sel` to `b` (bytea), both, or neither – the message it forwards is the well-framed Parse message
+with the same statement name, the new (or same) query text and the re-typed (or same) parameter types: the declared
+count equals the number of OIDs that follow and equals the count received, every parameter that is not selected keeps
+its OID, the packet length is the length of the body + 4, and the specification decoder reads all of this back. When
+nothing is replaced the packet is exactly the one received. -/
+theorem rewrite_wellformed_pg_parse (name query lb : Bytes) (oids : List Nat) (q : Option Bytes) (sel : Nat → Bool)
+    (b : Nat) (hn : NoZero name) (hq : NoZero query) (hl : oids.length ≤ 65535) (ho : ∀ o ∈ oids, o < 2^32)
+    (hb : b < 2^32) (hq' : ∀ x, q = some x → NoZero x)
+    (hsz : (encodeParse name (q.getD query) oids).length + 4 < 2^32) :
+    ∃ p, handleParse ⟨80, lb, encodeParse name query oids⟩ q sel b = .ok p ∧
+      ((q.isSome || (List.range oids.length).any sel) = true →
+        marshal p = encodeMsg 80 (encodeParse name (q.getD query) (setParseOids oids sel b))) ∧
+      ((q.isSome || (List.range oids.length).any sel) = false → p = ⟨80, lb, encodeParse name query oids⟩) ∧
+      decodeParse p.body = some (name, q.getD query, setParseOids oids sel b) ∧
+      (setParseOids oids sel b).length = oids.length ∧
+      (∀ i o, oids[i]? = some o → (setParseOids oids sel b)[i]? = some (if sel i then b else o)) := by
+  have hl' : oids.length < 2^16 := by omega
+  have hqq : NoZero (q.getD query) := by
+    cases q with
+    | none => exact hq
+    | some t => exact hq' t rfl
+  have hdec := decodeParse_encodeParse name (q.getD query) (setParseOids oids sel b) hn hqq
+    (by rw [setParseOids_length]; exact hl') (setParseOids_lt oids sel b ho hb)
+  refine ⟨_, handleParse_wellformed name query lb oids q sel b hn hq hl' ho hq' hsz, ?_, ?_, ?_,
+    setParseOids_length oids sel b, fun i o h => setParseOids_getElem? oids sel b i o h⟩
+  · intro hc
+    rw [if_pos hc]
+    exact marshal_encodeMsg 80 _ (by decide)
+  · intro hc
+    rw [hc]
+    rfl
+  · cases hc : (q.isSome || (List.range oids.length).any sel) with
+    | true => rw [if_pos rfl]; exact hdec
+    | false =>
+      rw [if_neg (by simp)]
+      have h1 : q = none := by cases q <;> simp_all
+      have h2 : (List.range oids.length).any sel = false := by cases q <;> simp_all
+      subst h1
+      rw [setParseOids_none oids sel b h2] at hdec ⊢
+      exact hdec
 
 open AcraModel.Wire.Pg in
 /-- **Relay identity, Bind.** A well-formed Bind body is parsed into portal, statement, parameter formats,
@@ -660,10 +737,11 @@ open AcraModel.Wire.Pg in
 /-- **Parse and Bind handling never panics**, whatever the packet body (truncated parameter counts, parameter
 lists shorter than announced, missing terminators …) and the (non-panicking) observers. -/
 theorem pg_parse_bind_no_panic (g : Nat → Bool → Option Bytes → Out (Option Bytes)) (hg : ∀ i b v, g i b v ≠ .panic)
-    (data q : Bytes) (p : Packet) :
-    newParsePacket data ≠ .panic ∧ replaceParseQuery p q ≠ .panic ∧
+    (data q : Bytes) (p : Packet) (oq : Option Bytes) (sel : Nat → Bool) (b : Nat) :
+    newParsePacket data ≠ .panic ∧ replaceParseQuery p q ≠ .panic ∧ handleParse p oq sel b ≠ .panic ∧
     newBindPacket data ≠ .panic ∧ rewriteBind g p ≠ .panic :=
-  ⟨newParsePacket_no_panic data, replaceParseQuery_no_panic p q, newBindPacket_no_panic data, rewriteBind_no_panic g hg p⟩
+  ⟨newParsePacket_no_panic data, replaceParseQuery_no_panic p q, handleParse_no_panic p oq sel b,
+   newBindPacket_no_panic data, rewriteBind_no_panic g hg p⟩
 
 open AcraModel.Wire.My in
 /-- **MySQL framing never panics** (`readPacket` over any stream, `replaceQuery` on any payload), and
@@ -712,6 +790,13 @@ open AcraModel.Wire.Pg in
 transformation grows column 0 and empties column 2 -/
 example : ∃ p, rewriteRow (fun i d => .ok (if i = 0 then d ++ [9, 9] else [])) [] ⟨68, [0, 0, 0, 21], encodeRow [some [1], none, some []]⟩ = .ok p
     ∧ decodeRow p.body = some [some [1, 9, 9], none, some []] := ⟨_, by rfl, by rfl⟩
+
+open AcraModel.Wire.Pg in
+/-- non-vacuity of `pg_parse_roundtrip` / `rewrite_wellformed_pg_parse`: the two count bytes `80 00` are the count 32768, and
+a Parse message `("s", "select $1,$2", [23, 25])` whose query is replaced and whose first parameter is re-typed to bytea (17) -/
+example : paramsCount [0x80, 0x00] = 32768 ∧
+    (∃ p, handleParse ⟨80, [0, 0, 0, 0], encodeParse [115] [115, 101, 108] [23, 25]⟩ (some [113]) (fun i => i == 0) 17 = .ok p ∧
+      decodeParse p.body = some ([115], [113], [17, 25]) ∧ p.lenBuf = [0, 0, 0, 18]) := ⟨by decide, _, by rfl, by rfl, by rfl⟩
 
 open AcraModel.Wire.My in
 /-- non-vacuity of the MySQL row theorems on a row with a NULL, an empty string and a value -/
